@@ -512,9 +512,12 @@ def validate_block_in_coinstate(block: Block, coinstate: CoinState) -> None:
     if block.height <= MAX_KNOWN_HASH_HEIGHT:
         # the checkpoint shortcut below is for blocks that *are* at that height in the chain, not for blocks that merely
         # declare such a height while building on some later block.
-        if block.previous_block_hash in coinstate.block_by_hash and \
-                block.height != coinstate.block_by_hash[block.previous_block_hash].height + 1:
-            raise ValidateBlockHeaderError("Block height must be the previous block's height plus one")
+        if block.previous_block_hash in coinstate.block_by_hash:
+            if block.height != coinstate.block_by_hash[block.previous_block_hash].height + 1:
+                raise ValidateBlockHeaderError("Block height must be the previous block's height plus one")
+        elif block.height != 0:
+            # only a genesis block (height 0) has no previous block
+            raise ValidateBlockHeaderError("previous_block_hash unknown: %s" % human(block.previous_block_hash))
 
         if block.height in KNOWN_HASHES:
             if block.hash() != computer(KNOWN_HASHES[block.height]):
